@@ -125,6 +125,8 @@ def monitor(ops, outs, pid):
                     fails.append((i, "flags-not-read-back"))
                 if m.group(1) == "0" and ln["st"] != "d":
                     fails.append((i, "flags-accepted-while-not-disconnected"))
+        if t[0] == "utls" and pid == "C02" and flags & F_DISABLE_TLS and (ln["res"] == "rc 0" or ln["sec"]):
+            fails.append((i, "tls-started-although-disabled"))
         if t[0] == "connect" and ln["res"] == "rc 0":
             kind = t[1] if len(t) > 1 else ctype0
             ctype = kind
